@@ -102,6 +102,8 @@ Canon(entries) == [i \in DOMAIN entries |->
                      [key |-> entries[i].key, modns |-> entries[i].modns, tomb |-> entries[i].tomb,
                       live |-> entries[i].live, st |-> entries[i].st, cols |-> entries[i].cols, prev |-> entries[i].prev]]
 
+CanonSet(entries) == {Canon(entries)[i] : i \in DOMAIN entries}
+
 (* ---------- violations ---------- *)
 V(prop, pred, e, detail) ==
   IF prop \in Props THEN {[sc |-> g.sc, prop |-> prop, pred |-> pred, seq |-> e.seq, detail |-> detail]} ELSE {}
@@ -291,7 +293,10 @@ OnStmt(e) ==
       v6 == IF e.outcome = "error" /\ ~ro THEN Unexpected(e, "statement") ELSE {}
       v7 == IF PastDeadline(c) /\ e.outcome = "ok" /\ e.dm > 0
             THEN V("C15", "C15_DeadlineApplies", e, [mutations |-> e.dm]) ELSE {}
-  IN [g2 |-> g2, v |-> v1 \cup v2 \cup v3 \cup v4 \cup v5 \cup v6 \cup v7]
+      \* a statement in autocommit mode that reports failure has published no version
+      v8 == IF e.outcome # "ok" /\ e.intx = 0 /\ Len(Get(g.fresh, c, <<>>)) > 0
+            THEN V("C05", "C05_FailedCommitLeavesBucket", e, [versions |-> Get(g.fresh, c, <<>>), err |-> e.err]) ELSE {}
+  IN [g2 |-> g2, v |-> v1 \cup v2 \cup v3 \cup v4 \cup v5 \cup v6 \cup v7 \cup v8]
 
 OnRows(e) ==
   LET c == e.c
@@ -329,7 +334,10 @@ OnCommit(e) ==
       v2 == IF e.outcome = "ok" /\ Get(g.cpend, c, {}) = {} /\ e.dm > 0
             THEN V("C16", "C16_NoopCommitNoPut", e, [mutations |-> e.dm]) ELSE {}
       v3 == IF e.outcome # "ok" THEN Unexpected(e, "commit") ELSE {}
-  IN [g2 |-> g2, v |-> v1 \cup v2 \cup v3]
+      \* a COMMIT that reports failure is a forced ROLLBACK: it has published no version
+      v4 == IF e.outcome # "ok" /\ Get(g.txputs, c, 0) > 0
+            THEN V("C05", "C05_FailedCommitLeavesBucket", e, [versions |-> Get(g.txputs, c, 0), err |-> e.err]) ELSE {}
+  IN [g2 |-> g2, v |-> v1 \cup v2 \cup v3 \cup v4]
 
 OnRollback(e) ==
   LET c == e.c
@@ -430,7 +438,7 @@ OnKVDump(e) ==
       v2 == IF w \notin DOMAIN g.lastdump THEN {} ELSE
             IF Canon(wd.entries) # Canon(e.entries) \/ wd.size # e.size \/ wd.height # e.height
             THEN V("C16", \* (KF-MAST-1: the writer's in-memory tree still holds an INSERT that was rolled back / failed)
-                   IF Canon(e.entries) \subseteq Canon(wd.entries) /\ \A x \in Canon(wd.entries) \ Canon(e.entries) : x.key \in g.leakable
+                   IF CanonSet(e.entries) \subseteq CanonSet(wd.entries) /\ \A x \in CanonSet(wd.entries) \ CanonSet(e.entries) : x.key \in g.leakable
                    THEN "C16_DecodesToSame_LeakedInsert" ELSE "C16_DecodesToSame", e, [writer |-> [entries |-> Canon(wd.entries), size |-> wd.size, height |-> wd.height],
                                                     reader |-> [entries |-> Canon(e.entries), size |-> e.size, height |-> e.height]]) ELSE {}
       v3 == IF e.has_only THEN CheckRows(e, c, FactsOfVersions(only), rows, "open of named versions") ELSE {}
